@@ -493,7 +493,7 @@ def conditions(tier):
     T = tier == "thorough"
     cfgs = [(3, 0, 1, False, False, "list"), (3, 0, 2, False, False, "array"), (3, 0, 2, True, False, "list"), (3, 0, 2, True, True, "array"),
             (4, 0, 3, False, False, "array"), (2, 2, 2, False, False, "list"), (2, 2, 2, True, 0.5, "array"), (2, 2, 1, True, True, "list"), (2, 3, 2, False, False, "array"),
-            (3, 0, 1, True, True, "list"), (2, 0, 1, True, False, "array")]
+            (3, 0, 1, True, True, "list"), (2, 0, 1, True, False, "array"), (3, 0, 2, False, True, "list"), (2, 2, 1, False, 0.5, "array")]
     if T:
         cfgs += [(4, 0, 3, True, True, "array"), (3, 3, 3, False, False, "array"), (4, 0, 2, True, False, "list"), (2, 3, 3, True, True, "list")]
     for n, n2, nb, norm, pseudo, bk in cfgs:
